@@ -1,12 +1,13 @@
 (* Properties_C14.v -- statements only.  C14: tridiagonal line solvers.
    Proved: exact-arithmetic correctness of the in-place LDL^T three-sweep solve for EVERY
-   dimension (non-cyclic), positivity of all pivots for strictly diagonally dominant systems,
+   dimension (non-cyclic), positivity of all pivots for strictly diagonally dominant systems AND for every symmetric
+   positive definite system (Schur-complement induction), hence A x = b for every SPD tridiagonal system,
    bit-identical repeated solves (any arithmetic).
    and of the cyclic (Sherman-Morrison) solve for every dimension n >= 2 under its two non-degeneracy
    conditions (the modified matrix factorises, 1 + v.z <> 0).
    PARTIAL: floating-point backward stability is covered by the exact-rational correspondence (K-solve), not by a theorem. *)
 From Coq Require Import List ZArith Bool Reals.
-From GMGP Require Import Scalar ScalarR TridiagDefs TridiagProofs TridiagCyclic.
+From GMGP Require Import Scalar ScalarR TridiagDefs TridiagProofs TridiagCyclic TridiagSPD.
 Import ListNotations.
 Local Open Scope R_scope.
 
@@ -39,6 +40,18 @@ Proof. exact pivots_positive_of_dominant. Qed.
 Theorem C14_pivots_pos_ok : forall d ds ss, pivots_pos d ds ss -> pivots_ok d ds ss.
 Proof. exact pivots_pos_ok. Qed.
 
+(* every symmetric positive definite tridiagonal matrix (x^T A x > 0 for x <> 0, with x^T A x taken from the dense reference
+   product) has positive pivots, for every dimension; so the in-place solve returns the exact solution of every SPD system *)
+Theorem C14_qform_is_xAx : forall d ds ss x0 xs, length ss = length ds -> length xs = length ds ->
+  qform d ds ss x0 xs = dotR (x0 :: xs) (@matvec_tri Rsc (d :: ds) ss (x0 :: xs)).
+Proof. exact qform_is_xAx. Qed.
+Theorem C14_pivots_positive_of_spd : forall ds d ss, length ss = length ds -> spd d ds ss -> pivots_pos d ds ss.
+Proof. exact spd_pivots_positive. Qed.
+Theorem C14_spd_solve_correct : forall d ds ss b0 bs,
+  length ss = length ds -> length bs = length ds -> spd d ds ss ->
+  @matvec_tri Rsc (d :: ds) ss (@solve_tri Rsc (d :: ds) ss (b0 :: bs)) = b0 :: bs.
+Proof. exact spd_solve_correct. Qed.
+
 (* repeated solves with the same object and right-hand side return identical results (bit for bit:
    no law of arithmetic is used), the first solve included *)
 Theorem C14_repeated_solves_identical : forall (S : Sc) (t : @tri S) (b : list S),
@@ -52,3 +65,4 @@ Print Assumptions C14_ldlt_solve_correct.
 Print Assumptions C14_pivots_positive_of_dominant.
 Print Assumptions C14_repeated_solves_identical.
 Print Assumptions C14_cyclic_solve_correct.
+Print Assumptions C14_spd_solve_correct.
